@@ -744,7 +744,14 @@ def run_cases(chk, cases):
             impls.append({"raised": f"{type(e).__name__}: {e}", "traceback": traceback.format_exc()[-2500:]})
     exprs = []
     for c, im in zip(cases, impls):
-        exprs += ["true"] if ("raised" in im or "configure" in im) else exprs_human(c, im) if c["kind"] == "human" else model_exprs(c, im)
+        try:
+            exprs += ["true"] if ("raised" in im or "configure" in im) else exprs_human(c, im) if c["kind"] == "human" else model_exprs(c, im)
+        except Exception as ex:  # noqa: BLE001 - the recorded state cannot be turned into a model query (NaN, unexpected type, ...)
+            import traceback
+
+            im["raised"] = f"the implementation's state cannot be sent to the model ({type(ex).__name__}: {ex})"
+            im["traceback"] = traceback.format_exc()[-2500:]
+            exprs += ["true"]
     vals = common.coq_eval_many(chk.pid, HEADER, exprs, shard=120, procs=4)
     results = []
     for c, im, v in zip(cases, impls, vals):
